@@ -48,6 +48,7 @@ var mutationDocs = univ.Js(
 	`{"a":{"a":[3,2,1],"b":{"b":2,"a":1}},"b":{"c":3,"a":[0,-1]}}`, `{"a":"cba","b":"é😀a"}`, `{"a":[3,"a",null,[2,1],{"a":1}],"b":null}`,
 	`[[[3,1,2]],[[2,1]]]`, `{"a":[2,1],"b":[1,2]}`, `{"a":[],"b":{}}`, `[{"a":[3,1,2]},{"a":[9,7,8]}]`, `{"a":1,"b":2}`, `null`,
 	`{"a":[{"k":"b"},{"k":"a"},{"k":"c"}],"b":[{"k":2},{"k":"x"},{"k":1}]}`, `[1]`, `[2,1]`, `{"a":[true,false,null],"b":[1.5,-1,0]}`,
+	`[1,null,2]`, `{"a":[null,1,null,2],"b":[null]}`, `{"a":{},"b":{"k":1,"j":2}}`, `{"a":{"k":0},"b":{}}`, `{"a":[9,8,7,6,5,4,3,2,1,0,"x"],"b":[0,1,2,3,4,5,6,7,8,9,10,11]}`,
 )
 
 func c06Exprs(thorough bool) []string {
